@@ -5,9 +5,11 @@
     [Reachable N s]: [s] is the state of model/Crt.v after ANY finite sequence
     of submit / complete / shutdown operations from a manager with [N]
     permits (submissions of every kind, with any number of subscribers, with or
-    without a raising subscriber, with or without a construction failure;
-    completions ok / error / cancelled / ok-but-rename-fails in any order;
-    shutdown with or without cancel).  The real manager has
+    without a raising subscriber, with or without a construction failure in
+    on_queued / argument building / make_request; completions ok / error /
+    cancelled / ok-but-rename-fails in any order, as one step or split into
+    "finished_future resolved" and "on_done delivered" with anything in
+    between; shutdown with or without cancel).  The real manager has
     N = CRT_PERMITS, regenerated from crt.py into gen/Tables.v. *)
 From Coq Require Import ZArith List Bool Lia.
 From S3V Require Import gen.Tables model.Crt proofs.CrtProofs.
@@ -39,7 +41,8 @@ Print Assumptions crt_permit_conservation_any.
 (** Every transfer that got a permit acquired exactly once; its release ran
     at most once, and -- unless one of its own subscribers' on_done raised --
     exactly once as soon as its done callbacks ran, on each of the four paths:
-    construction failure ([t_exc]), success, error, cancel ([t_crt = Some _]).
+    construction failure ([t_exc]; the done callbacks run inside submit),
+    success, error, cancel ([t_crt = Some _], once on_done was delivered).
     The count of release events in the log is the same number. *)
 Theorem crt_one_release_per_transfer : forall N s i t, 0 <= N -> Reachable N s ->
   nth_error (transfers s) i = Some t ->
@@ -49,7 +52,8 @@ Theorem crt_one_release_per_transfer : forall N s i t, 0 <= N -> Reachable N s -
   (t_on_done_ran t = false -> t_releases t = 0%nat) /\
   (t_on_done_ran t = true -> t_raises t = false -> t_releases t = 1%nat) /\
   (t_on_done_ran t = true -> t_raises t = true -> t_releases t = 0%nat) /\
-  (t_on_done_ran t = true <-> (t_exc t = true \/ exists o, t_crt t = Some o)).
+  (t_exc t = true -> t_on_done_ran t = true) /\
+  (t_on_done_ran t = true -> t_exc t = true \/ exists o, t_crt t = Some o).
 Proof.
   intros N s i t HN H Hn. apply (inv_one_release N); [now apply reachable_inv|exact Hn].
 Qed.
@@ -83,8 +87,8 @@ Proof.
 Qed.
 Print Assumptions crt_log_canonical.
 
-(** Download to a path whose request was created: while pending the temporary
-    file exists; success => renamed to the destination, exactly one rename, no
+(** Download to a path whose request was created: until on_done is delivered
+    the temporary file exists; success => renamed to the destination, exactly one rename, no
     removal; error / cancel (and a rename that itself fails) => removed,
     exactly one removal, no rename.  Never both, never neither.  Every other
     transfer never has a temporary file. *)
@@ -92,11 +96,13 @@ Theorem crt_publish_or_remove : forall N s i t, 0 <= N -> Reachable N s ->
   nth_error (transfers s) i = Some t ->
   let p := proj i (log s) in
   (t_kind t = DownloadPath -> t_exc t = false ->
-     match t_crt t with
-     | None => t_temp t = TTemp /\ count EvRename p = 0%nat /\ count EvRemove p = 0%nat
-     | Some Ok => t_temp t = TRenamed /\ count EvRename p = 1%nat /\ count EvRemove p = 0%nat
-     | Some _ => t_temp t = TRemoved /\ count EvRename p = 0%nat /\ count EvRemove p = 1%nat
-     end) /\
+     if t_on_done_ran t then
+       match t_crt t with
+       | Some Ok => t_temp t = TRenamed /\ count EvRename p = 1%nat /\ count EvRemove p = 0%nat
+       | Some _ => t_temp t = TRemoved /\ count EvRename p = 0%nat /\ count EvRemove p = 1%nat
+       | None => False
+       end
+     else t_temp t = TTemp /\ count EvRename p = 0%nat /\ count EvRemove p = 0%nat) /\
   ((t_kind t <> DownloadPath \/ t_exc t = true) ->
      t_temp t = TAbsent /\ count EvRename p = 0%nat /\ count EvRemove p = 0%nat).
 Proof.
@@ -131,7 +137,7 @@ Theorem crt_blocks_not_fails : forall N s, 0 <= N -> Reachable N s ->
   (forall k n r f s' res, submit k n r f s = (s', res) ->
      (res = RWouldBlock /\ s' = s /\ permits s <= 0) \/
      (res = RSubmitted /\ 0 < permits s /\ length (transfers s') = S (length (transfers s))) \/
-     (res = RRaised /\ 0 < permits s /\ f = true /\ norm_raises n r = true)).
+     (res = RRaised /\ 0 < permits s /\ is_fail f = true /\ norm_raises n r = true)).
 Proof.
   intros N s HN H. split.
   - intros Hh k n r f. apply submit_blocks.
@@ -142,11 +148,25 @@ Print Assumptions crt_blocks_not_fails.
 
 (** CRT_PERMITS submissions all get a permit; the next one, of any kind, blocks. *)
 Theorem crt_blocks_beyond_permits : forall k n r,
-  let s := run (init CRT_PERMITS) (repeat (OSubmit k n r false) (Z.to_nat CRT_PERMITS)) in
+  let s := run (init CRT_PERMITS) (repeat (OSubmit k n r NoFail) (Z.to_nat CRT_PERMITS)) in
   permits s = 0 /\ Z.of_nat (holding (transfers s)) = CRT_PERMITS /\
   forall k' n' r' f', submit k' n' r' f' s = (s, RWouldBlock).
 Proof. intros k n r. apply fill_then_blocks. discriminate. Qed.
 Print Assumptions crt_blocks_beyond_permits.
+
+(** A construction failure at any point of the try block -- a subscriber's
+    on_queued, building the request arguments, make_request itself -- with
+    well-behaved subscribers: submit still returns a future, every subscriber's
+    on_done ran, the permit taken is released exactly once (the semaphore is
+    back to its value), the after-done flag is set, result() will raise. *)
+Theorem crt_construction_failure_releases_once : forall s k n r f, 0 < permits s ->
+  is_fail f = true -> norm_raises n r = false ->
+  exists s', submit k n r f s = (s', RSubmitted) /\ permits s' = permits s /\
+    exists t, nth_error (transfers s') (length (transfers s)) = Some t /\
+      t_exc t = true /\ t_releases t = 1%nat /\ t_after t = true /\
+      t_subs_done t = n /\ future_of t = FvConstructFail.
+Proof. exact submit_failed_releases. Qed.
+Print Assumptions crt_construction_failure_releases_once.
 
 (** What the code does NOT guarantee (statements that are false of the
     faithful model, with witnesses). *)
@@ -161,7 +181,7 @@ Theorem crt_release_when_subscriber_raises_refuted : exists s t,
   permits s = CRT_PERMITS - 1 /\ snd (shutdown true s) = RHang.
 Proof.
   eexists; eexists. split.
-  - exists [OSubmit Upload 1 true false; OComplete 0 Ok]. reflexivity.
+  - exists [OSubmit Upload 1 true NoFail; OComplete 0 Ok]. reflexivity.
   - vm_compute. repeat split.
 Qed.
 Print Assumptions crt_release_when_subscriber_raises_refuted.
@@ -175,7 +195,7 @@ Theorem crt_success_means_published_refuted : exists s t,
   future_of t = FvSuccess /\ t_temp t = TRemoved.
 Proof.
   eexists; eexists. split.
-  - exists [OSubmit DownloadPath 0 false false; OComplete 0 OkRenameFail]. reflexivity.
+  - exists [OSubmit DownloadPath 0 false NoFail; OComplete 0 OkRenameFail]. reflexivity.
   - vm_compute. repeat split.
 Qed.
 Print Assumptions crt_success_means_published_refuted.
@@ -184,10 +204,10 @@ Print Assumptions crt_success_means_published_refuted.
     failure, completions out of order, a blocked third submission, a
     shutdown that returns although the first result() raises. *)
 Definition demo_ops : list op :=
-  [ OSubmit DownloadPath 2 false true;      (* 0: construction fails *)
-    OSubmit DownloadPath 1 false false;     (* 1 *)
-    OSubmit Upload 0 false false;           (* 2 *)
-    OSubmit Delete 0 false false;           (* blocks *)
+  [ OSubmit DownloadPath 2 false FailMakeRequest;   (* 0: construction fails *)
+    OSubmit DownloadPath 1 false NoFail;            (* 1 *)
+    OSubmit Upload 0 false NoFail;                  (* 2 *)
+    OSubmit Delete 0 false NoFail;                  (* blocks *)
     OComplete 2 Err;
     OComplete 1 Ok;
     OShutdown false ].
@@ -201,16 +221,32 @@ Example C20_nonvacuous :
   map future_of (transfers s) = [FvConstructFail; FvSuccess; FvError] /\
   finish_scan (transfers s) = FinRaised /\
   snd (shutdown false s) = RReturned /\
-  snd (submit Delete 0 false false (run (init 2) (firstn 3 demo_ops))) = RWouldBlock /\
+  snd (submit Delete 0 false NoFail (run (init 2) (firstn 3 demo_ops))) = RWouldBlock /\
   proj 1 (log s) = [EvAcquire; EvQueued 0; EvRename; EvSubDone 0; EvRelease; EvAfter] /\
   proj 0 (log s) = [EvAcquire; EvQueued 0; EvQueued 1; EvSubDone 0; EvSubDone 1; EvRelease; EvAfter].
 Proof. split; [now exists demo_ops|]. vm_compute. repeat split. Qed.
 
 Example C20_nonvacuous_cancel :
-  let s0 := run (init 3) [OSubmit DownloadPath 1 false false; OSubmit DownloadStream 1 false false] in
+  let s0 := run (init 3) [OSubmit DownloadPath 1 false NoFail; OSubmit DownloadStream 1 false NoFail] in
   snd (shutdown false s0) = RHang /\
   snd (shutdown true s0) = RReturned /\
   map t_temp (transfers (fst (shutdown true s0))) = [TRemoved; TAbsent] /\
   map future_of (transfers (fst (shutdown true s0))) = [FvCancelled; FvCancelled] /\
   permits (fst (shutdown true s0)) = 3.
+Proof. vm_compute. repeat split. Qed.
+
+(** A failed transfer ahead of one whose finished_future is resolved but whose
+    on_done has not been delivered: result() of the first raises, shutdown --
+    with or without cancel -- still waits for the second one's callbacks. *)
+Example C20_nonvacuous_resolved_not_delivered :
+  let s0 := run (init 3) [OSubmit Upload 1 false FailQueued; OSubmit DownloadPath 1 false NoFail;
+                          OResolve 1 Ok] in
+  finish_scan (transfers s0) = FinRaised /\
+  map future_of (transfers s0) = [FvConstructFail; FvSuccess] /\
+  map t_temp (transfers s0) = [TAbsent; TTemp] /\ permits s0 = 2 /\
+  snd (shutdown false s0) = RHang /\ snd (shutdown true s0) = RHang /\
+  proj 0 (log s0) = [EvAcquire; EvQueued 0; EvSubDone 0; EvRelease; EvAfter] /\
+  let s1 := fst (step s0 (ODeliver 1)) in
+  snd (shutdown false s1) = RReturned /\ map t_temp (transfers s1) = [TAbsent; TRenamed] /\
+  permits s1 = 3.
 Proof. vm_compute. repeat split. Qed.
